@@ -57,6 +57,8 @@ def solution_text(rng, n, db, rich=False):
         pool += ["Sr", "Ba", "N(5)"]
     if db == "pitzer.dat":
         pool = ["Na", "K", "Ca", "Mg", "Cl", "S(6)", "C(4)", "Sr", "Ba"]
+    if db == "iso.dat":
+        pool = ["Na", "K", "Ca", "Mg", "Cl", "S(6)", "C(4)", "Si"]
     k = rng.randint(3, 7) if rich else rng.randint(2, 6)
     chosen = rng.sample(pool, min(k, len(pool)))
     if "Cl" not in chosen:
@@ -75,6 +77,12 @@ def solution_text(rng, n, db, rich=False):
     for e in chosen:
         extra = " charge" if charge_on == e else ""
         lines.append(" %s %s%s" % (e, fmt(vals[e]), extra))
+    if db == "iso.dat" and rng.random() < 0.7:
+        # minor isotopes (permil / pmc units of the ISOTOPES block): separate elements D, [18O], [13C] in the totals
+        lines.append(" D %s" % fmt(rng.uniform(-80, 10)))
+        lines.append(" [18O] %s" % fmt(rng.uniform(-12, 2)))
+        if "C(4)" in chosen:
+            lines.append(" [13C] %s" % fmt(rng.uniform(-25, 2)))
     if charge_on == "pH":
         lines[2] = lines[2] + " charge"
     return "\n".join(lines) + "\n", chosen
@@ -114,6 +122,8 @@ def pp_text(rng, n, db, elems):
              ("Quartz", "0"), ("Halite", "0"), ("Anhydrite", "0"), ("Aragonite", "0"), ("Celestite", "0"), ("Barite", "0")]
     if db != "pitzer.dat":
         cands += [("Gibbsite", "0"), ("Fe(OH)3(a)", "0"), ("O2(g)", "-0.7"), ("Chalcedony", "0"), ("Fluorite", "0")]
+    if db == "iso.dat":
+        cands = [c for c in cands if c[0] not in ("Aragonite", "Celestite", "Barite")]
     k = rng.randint(1, 4)
     lines = ["EQUILIBRIUM_PHASES %d" % n]
     tags = []
@@ -320,10 +330,12 @@ def punch_text(elements, phases, gases, kin, sscomps, surfaces):
 
 def history(rng, forced=None):
     """one history; `forced` optionally fixes the set of reactant kinds"""
-    db = rng.choice(["phreeqc.dat"] * 6 + ["wateq4f.dat", "Amm.dat", "pitzer.dat", "phreeqc.dat"])
+    db = rng.choice(["phreeqc.dat"] * 6 + ["wateq4f.dat", "Amm.dat", "pitzer.dat", "phreeqc.dat", "iso.dat"])
     kinds = forced if forced is not None else [k for k in KINDS if rng.random() < 0.4]
     if db == "pitzer.dat":
         kinds = [k for k in kinds if k != "surface"]
+    if db == "iso.dat":
+        kinds = [k for k in kinds if k != "solid_solutions"]       # iso.dat has no Aragonite/Strontianite/Celestite/Barite
     if not kinds:
         kinds = [rng.choice(KINDS[:3])] if db != "pitzer.dat" else ["reaction"]
     incremental = rng.random() < 0.5
@@ -351,13 +363,47 @@ def history(rng, forced=None):
         t0.append(t)
         tags += tg
         phases = [l.split()[0] for l in t.splitlines()[1:]]
+    if "kinetics" in kinds:
+        t, tg = kinetics_text(rng, 1, db)
+        t0.append(t)
+        t0.append(RATES)
+        tags += tg
+        kin = [l.strip() for l in t.splitlines()[1:] if not l.strip().startswith("-")]
+    pp_pos = []
+    for blk in t0:
+        if blk.startswith("EQUILIBRIUM_PHASES"):
+            for l in blk.splitlines()[1:]:
+                w = l.split()
+                try:
+                    if len(w) >= 3 and float(w[2]) > 0 and "(g)" not in w[0]:
+                        pp_pos.append(w[0])
+                except ValueError:
+                    pass
     if "exchange" in kinds:
-        t, tg = exchange_text(rng, 1, 1, db)
+        r = rng.random()
+        if r < 0.25 and pp_pos:
+            t = "EXCHANGE 1\n X %s equilibrium_phase %s\n -equilibrate 1\n" % (rng.choice(pp_pos), fmt(rng.choice([0.01, 0.1, 0.5])))
+            tg = ["exch:related_phase"]
+        elif r < 0.4 and kin:
+            t = "EXCHANGE 1\n X %s kinetic_reactant %s\n -equilibrate 1\n" % (rng.choice(kin), fmt(rng.choice([0.01, 0.1, 0.5])))
+            tg = ["exch:related_rate"]
+        else:
+            t, tg = exchange_text(rng, 1, 1, db)
         t0.append(t)
         tags += tg
         elements.add("X")
     if "surface" in kinds:
-        t, tg = surface_text(rng, 1, 1, db)
+        r = rng.random()
+        if r < 0.2 and pp_pos and db != "pitzer.dat":
+            t = "SURFACE 1\n Hfo_w %s equilibrium_phase %s %s\n -equilibrate 1\n" % (rng.choice(pp_pos), fmt(rng.choice([0.01, 0.1])), fmt(rng.choice([1e3, 5e4])))
+            tg = ["surf:related_phase"]
+        elif r < 0.35 and kin and db != "pitzer.dat":
+            t = "SURFACE 1\n Hfo_w %s kinetic_reactant %s %s\n -equilibrate 1\n" % (rng.choice(kin), fmt(rng.choice([0.01, 0.1])), fmt(rng.choice([1e3, 5e4])))
+            tg = ["surf:related_rate"]
+        else:
+            t, tg = surface_text(rng, 1, 1, db)
+            while db == "iso.dat" and "cd_music" in tg[0]:
+                t, tg = surface_text(rng, 1, 1, db)        # species definitions in the input do not load on top of iso.dat
         t0.append(t)
         tags += tg
         surfaces = ["Goe" if "Goe_uni" in t else "Hfo"]
@@ -371,12 +417,6 @@ def history(rng, forced=None):
         t0.append(t)
         tags += tg
         sscomps = [l.split()[1] for l in t.splitlines() if l.strip().startswith("-comp")]
-    if "kinetics" in kinds:
-        t, tg = kinetics_text(rng, 1, db)
-        t0.append(t)
-        t0.append(RATES)
-        tags += tg
-        kin = [l.strip() for l in t.splitlines()[1:] if not l.strip().startswith("-")]
     if "reaction" in kinds:
         t, mode, unit = reaction_text(rng, 1, db)
         t0.append(t)
@@ -437,6 +477,8 @@ def history(rng, forced=None):
                 lines.append("USE %s %d\n" % (k, cur[k]))
                 step["use"][k] = cur[k]
             newnum = rng.choice([None, None, 10 * s + 1])
+            if any("related" in t for t in tags):
+                newnum = None                  # a related exchanger/surface needs its phase / kinetics under the same number
             tgt = newnum if newnum else cur["solution"]
             if use_mix and s == 1 and not newnum:
                 tgt = 5
